@@ -7,88 +7,7 @@
 open Model
 open Conv
 
-(* symbols of an expression *)
-let rec syms (e : expr) (acc : expr list) : expr list =
-  match e with
-  | BVSymbol _ | ArraySymbol _ -> if List.exists (fun x -> expr_eqb x e) acc then acc else e :: acc
-  | _ -> List.fold_left (fun acc c -> syms c acc) acc (children e)
-
-let pow2 (w : n) : n = N.pow n_two w
-let ones (w : n) : n = N.sub (pow2 w) (n_of_int 1)
-
-let rand_n (st : Random.State.t) (w : int) : n =
-  let acc = ref N0 in
-  for _ = 1 to w do
-    acc := N.mul n_two !acc;
-    if Random.State.bool st then acc := N.add !acc (n_of_int 1)
-  done;
-  !acc
-
-(* an assignment = list of (symbol, value for bv | (a,b) coefficients for arrays) *)
-type aval = VB of n | VA of n * n
-
-let env_of (asg : (expr * aval) list) : env =
-  { rho_bv = (fun nm w ->
-        match List.find_opt (fun (s, _) -> match s with BVSymbol (n', w') -> n' = nm && w' = w | _ -> false) asg with
-        | Some (_, VB v) -> v | _ -> N0);
-    rho_arr = (fun nm iw dw ->
-        match List.find_opt (fun (s, _) -> match s with ArraySymbol (n', i', d') -> n' = nm && i' = iw && d' = dw | _ -> false) asg with
-        | Some (_, VA (a, b)) -> (fun i -> N.modulo (N.add (N.mul a i) b) (pow2 dw))
-        | _ -> (fun _ -> N0)) }
-
-let corner (k : int) (w : n) : n =
-  match k with
-  | 0 -> N0
-  | 1 -> if w = N0 then N0 else n_of_int 1
-  | 2 -> ones w
-  | 3 -> pow2 (N.sub w (n_of_int 1))
-  | _ -> (* alternating *) n_of_bits (String.init (int_of_n w) (fun i -> if i mod 2 = 0 then '1' else '0'))
-
-let assignments (st : Random.State.t) (ss : expr list) : (expr * aval) list list =
-  let total_bits = List.fold_left (fun acc s -> match s with BVSymbol (_, w) -> acc + int_of_n w | _ -> acc + 1000) 0 ss in
-  if total_bits <= 10 then begin
-    (* exhaustive *)
-    let rec go = function
-      | [] -> [ [] ]
-      | (BVSymbol (_, w) as s) :: rest ->
-          let tails = go rest in
-          List.concat (List.init (1 lsl int_of_n w) (fun v -> List.map (fun t -> (s, VB (n_of_int v)) :: t) tails))
-      | _ :: rest -> go rest
-    in
-    go ss
-  end else begin
-    let mk f = List.map (fun s -> match s with
-        | BVSymbol (_, w) -> (s, VB (f w))
-        | ArraySymbol (_, _, dw) -> (s, VA (rand_n st (min (int_of_n dw) 8), rand_n st (int_of_n dw)))
-        | _ -> (s, VB N0)) ss in
-    List.init 5 (fun k -> mk (corner k))
-    @ List.init 5 (fun k -> mk (fun w -> if Random.State.bool st then corner k w else rand_n st (int_of_n w)))
-    @ List.init 14 (fun _ -> mk (fun w -> rand_n st (int_of_n w)))
-  end
-
-let sample_indices (st : Random.State.t) (iw : n) : n list =
-  if int_of_n iw <= 4 then List.init (1 lsl int_of_n iw) n_of_int
-  else [ N0; n_of_int 1; ones iw ] @ List.init 4 (fun _ -> rand_n st (int_of_n iw))
-
-(* first assignment under which e and r differ *)
-let find_diff (st : Random.State.t) (e : expr) (r : expr) : string option =
-  let ss = syms r (syms e []) in
-  let asgs = assignments st ss in
-  let show asg = String.concat " " (List.map (fun (s, v) -> match s, v with
-      | BVSymbol (nm, w), VB x -> Printf.sprintf "%s=b%s" (ocamlstr nm) (bits_of_n_loose (int_of_n w) x)
-      | ArraySymbol (nm, _, _), VA (a, b) -> Printf.sprintf "%s=[i->%s*i+%s]" (ocamlstr nm) (dec_of_n a) (dec_of_n b)
-      | _ -> "?") asg) in
-  let rec go = function
-    | [] -> None
-    | asg :: rest ->
-        let rho = env_of asg in
-        let differs =
-          match type_of e with
-          | TBV _ -> ebv rho e <> ebv rho r
-          | TArr (iw, _) -> List.exists (fun i -> earr rho e i <> earr rho r i) (sample_indices st iw) in
-        if differs then Some (show asg) else go rest
-  in
-  go asgs
+open Evalutil
 
 let root_op fs = Sexp.atom (List.hd (Sexp.list (Sexp.field1 "expr" fs)))
 
